@@ -33,9 +33,18 @@ OnRet(e) ==
                 ELSE IF e.r # last THEN "outcome of the call differs: expected " \o last \o ", got " \o e.r
                 ELSE IF lastop = "tok" /\ last = "ok" /\ (e.token # listV[got].token \/ e.key # listV[got].key) THEN "token/key returned are not those of the matching entry"
                 ELSE "ok"
+(* end-to-end observation of an auto-connect: the device found by discovery, the credentials it holds afterwards, the credentials *)
+(* registered in the cloud for the udpid of its id (in the byte order it was registered under), whether it was refreshed          *)
+OnE2E(e) ==
+  /\ Stay /\ Keep
+  /\ verdict' = IF e.exc # "" THEN "auto-connect raised " \o e.exc
+                ELSE IF ~e.found THEN "the V3 device was not reported"
+                ELSE IF e.dev_token # e.reg_token \/ e.dev_key # e.reg_key THEN "the device does not hold the credentials registered for the udpid of its id"
+                ELSE IF ~e.online THEN "the authenticated device was not refreshed"
+                ELSE "ok"
 TNext == /\ l <= Len(Traces[tid].events) /\ verdict = "ok"
          /\ LET e == Traces[tid].events[l] IN
-            CASE e.ev = "call" -> OnCall(e) [] e.ev = "req" -> OnReq(e) [] e.ev = "ret" -> OnRet(e)
+            CASE e.ev = "call" -> OnCall(e) [] e.ev = "req" -> OnReq(e) [] e.ev = "ret" -> OnRet(e) [] e.ev = "e2e" -> OnE2E(e)
          /\ l' = l + 1 /\ UNCHANGED tid
 Done == l = Len(Traces[tid].events) + 1 \/ verdict # "ok"
 Judge == Done => PrintT(<<"DONE", tid, IF verdict = "ok" THEN "ok" ELSE verdict \o " @event " \o ToString(l - 1)>>)
